@@ -404,7 +404,7 @@ class RandomUDSServer(UDSServer):
         level = 0
         default_session = 1
         level_sessions = {default_session}
-        session_transitions: list[set[int]] = [set() for _ in range(0x7F)]
+        session_transitions: list[set[int]] = [set() for _ in range(0x80)]
         session_transitions[default_session] = {default_session}
         combined_sessions = (
             self.randomness_parameters.mandatory_sessions
